@@ -78,6 +78,12 @@ fn calc_max_day_cost_per_sec(all_deltas: &Vec<TxDelta>) -> MaxDayCosts {
 
     let mut ignored_delta_descs = Vec::<String>::new();
 
+    // The cost each security was left with at the end of each day (ie. after its
+    // last delta that day). This, and not the day's maximum, is what is carried
+    // forward to later days on which the security has no delta.
+    let mut closing_costs_by_day =
+        HashMap::<Date, HashMap<Security, GreaterEqualZeroDecimal>>::new();
+
     // Keep track of the maximum cost for each security on any date where there's a TxDelta.
     // For example, SECA on 2000-01-01 has ACB 12, ACB 150, and ACB 0, so after the loop below,
     // we'll have a dateCosts[2001-01-01][SECA] = 150
@@ -109,6 +115,10 @@ fn calc_max_day_cost_per_sec(all_deltas: &Vec<TxDelta>) -> MaxDayCosts {
         let day_max_costs: &mut MaxSingleDayCosts =
             max_costs_by_day.get_mut(&date_from_delta).unwrap();
         day_max_costs.observe_new_cost(sec, total_acb);
+        closing_costs_by_day
+            .entry(date_from_delta)
+            .or_insert_with(HashMap::new)
+            .insert(sec.clone(), total_acb);
 
         if !day_zero_sec_costs.contains_key(sec) {
             day_zero_sec_costs.insert(
@@ -128,16 +138,20 @@ fn calc_max_day_cost_per_sec(all_deltas: &Vec<TxDelta>) -> MaxDayCosts {
     let mut last_acbs = HashMap::<Security, GreaterEqualZeroDecimal>::new();
     for day in sorted_days {
         let max_costs = max_costs_by_day.get_mut(&day).unwrap();
+        let closing_costs = closing_costs_by_day.get(&day);
         for sec in &security_set {
-            let last_acb = *max_costs
-                .sec_max_cost_for_day
-                .get(sec)
-                .or_else(|| last_acbs.get(sec))
-                .unwrap_or_else(|| &day_zero_sec_costs.get(sec).unwrap().1);
-
-            last_acbs.insert(sec.clone(), last_acb);
-            if !max_costs.sec_max_cost_for_day.contains_key(sec) {
-                max_costs.observe_new_cost(sec, last_acb);
+            match closing_costs.and_then(|c| c.get(sec)) {
+                Some(closing_cost) => {
+                    // Had deltas today. The day's max is already recorded.
+                    last_acbs.insert(sec.clone(), *closing_cost);
+                }
+                None => {
+                    let last_acb = *last_acbs.get(sec).unwrap_or_else(|| {
+                        &day_zero_sec_costs.get(sec).unwrap().1
+                    });
+                    last_acbs.insert(sec.clone(), last_acb);
+                    max_costs.observe_new_cost(sec, last_acb);
+                }
             }
         }
     }
